@@ -220,6 +220,9 @@ impl TypedProgram {
         let Some(fn_def) = self.fn_defs.get(fn_name) else {
             return Err(vec![CompilerError::FnNotFound(fn_name.to_string())]);
         };
+        // The parameters are bound after the consts, in a scope of their own: a parameter shadows
+        // a const of the same name (as in the type checker), it is not overwritten by it.
+        let mut param_bindings: Vec<(String, Vec<GateIndex>)> = vec![];
         let single_array_as_multiple_parties = if fn_def.params.len() == 1 {
             let param = &fn_def.params[0];
             match &param.ty {
@@ -242,7 +245,7 @@ impl TypedProgram {
                 }
                 input_gates.push(type_size);
             }
-            env.let_in_current_scope(param.name.clone(), wires);
+            param_bindings.push((param.name.clone(), wires));
         } else {
             for param in fn_def.params.iter() {
                 let type_size = param.ty.size_in_bits_for_defs(self, &const_sizes);
@@ -252,7 +255,7 @@ impl TypedProgram {
                     wire += 1;
                 }
                 input_gates.push(type_size);
-                env.let_in_current_scope(param.name.clone(), wires);
+                param_bindings.push((param.name.clone(), wires));
             }
         }
         if input_gates.iter().sum::<usize>() == 0 {
@@ -354,6 +357,10 @@ impl TypedProgram {
                     }
                 }
             }
+        }
+        env.push();
+        for (name, wires) in param_bindings {
+            env.let_in_current_scope(name, wires);
         }
         let output_gates = compile_block(&fn_def.body, self, &mut env, &mut circuit);
         Ok((circuit.build(output_gates), fn_def, const_sizes))
@@ -1186,12 +1193,16 @@ impl TypedExpr {
                     bindings.push((param.name.clone(), arg));
                     env.pop();
                 }
+                // Lexical scoping (as in the type checker): the body of the callee sees the global
+                // scope (consts) and its own parameters, never the locals of the caller.
+                let caller_scopes = env.0.split_off(1);
                 env.push();
                 for (var, binding) in bindings {
                     env.let_in_current_scope(var.clone(), binding);
                 }
                 let body = compile_block(&fn_def.body, prg, env, circuit);
                 env.pop();
+                env.0.extend(caller_scopes);
                 body
             }
             ExprEnum::BuiltInFnCall(BuiltInFnCall::Join {
